@@ -1,4 +1,6 @@
 import ApdVerif.Spec.Agrees
+import ApdVerif.Props.RoundCore
+import ApdVerif.Lemmas.C10Lemmas
 /-!
 # C10 — integer division and remainder satisfy the division identity
 -/
@@ -9,6 +11,12 @@ open Apd Apd.Oracle
 def aligned (x y : Dec) : Nat × Nat × Int :=
   let e := min x.exp y.exp
   (x.coeff * 10 ^ (x.exp - e).toNat, y.coeff * 10 ^ (y.exp - e).toNat, e)
+
+/-- `upscale` computes exactly `aligned` when the exponent gap is at most `MaxExponent` -/
+theorem upscale_eq_aligned (x y : Dec)
+    (hgap : x.exp - y.exp ≤ 100000 ∧ y.exp - x.exp ≤ 100000) :
+    upscale x y = some ((aligned x y).1, (aligned x y).2.1, (aligned x y).2.2) :=
+  upscale_eq x y hgap
 
 /-- QuoInteger: `q = trunc(x/y)` as an integer of exponent 0 with the product sign, or
 DivisionImpossible + NaN exactly when q needs more than Precision digits. -/
@@ -21,7 +29,61 @@ theorem C10_quoInteger (c : Ctx) (hc : c.WF) (x y : Dec) (hx : x.form = .finite)
       o.d = { form := .finite, neg := (x.neg != y.neg), exp := 0, coeff := q } ∧ o.fl = {} ∧ o.err = .none
     else
       o.d.form = .nan ∧ o.fl = Cond.cDivImpossible ∧ o.err = goError c.traps Cond.cDivImpossible := by
-  sorry
+  intro a q o
+  have ho : o = _ := quoIntegerOp_eq c hc.1 x y hx hy hy0 _ _ _ (upscale_eq_aligned x y hgap)
+  by_cases h : ndigits q ≤ c.prec
+  · have h' : ¬ c.prec < ndigits ((aligned x y).1 / (aligned x y).2.1) := by
+      show ¬ c.prec < ndigits q; omega
+    rw [if_neg h'] at ho
+    rw [if_pos h, ho]
+    exact ⟨rfl, rfl, rfl⟩
+  · have h' : c.prec < ndigits ((aligned x y).1 / (aligned x y).2.1) := by
+      show c.prec < ndigits q; omega
+    rw [if_pos h'] at ho
+    rw [if_neg h, ho]
+    exact ⟨rfl, rfl, rfl⟩
+
+/-- the statement "`Context.round` agrees with the specification" that `C10_rem` imports from
+`ApdVerif.Props.RoundCore` (`C01_roundCore`) -/
+def RoundCoreFact : Prop :=
+  ∀ (c : Ctx), c.WF → ∀ (x : Dec), x.form = .finite → NoSys (ctxRound c x).2 →
+    Agrees c (exactRound x) (ctxRound c x).1 (ctxRound c x).2
+
+/-- `C10_rem` with the round-core fact as an explicit hypothesis (this part is sorry-free
+independently of `RoundCore.lean`) -/
+theorem C10_rem_of_roundCore (hRC : RoundCoreFact)
+    (c : Ctx) (hc : c.WF) (x y : Dec) (hx : x.form = .finite) (hy : y.form = .finite)
+    (hy0 : y.coeff ≠ 0) (hgap : x.exp - y.exp ≤ 100000 ∧ y.exp - x.exp ≤ 100000) :
+    let a := aligned x y
+    let q := a.1 / a.2.1
+    let r := a.1 % a.2.1
+    let o := remOp c x y
+    (a.1 = q * a.2.1 + r ∧ r < a.2.1) ∧
+    (if ndigits q ≤ c.prec then
+      (Delivered o.err →
+        Agrees c { neg := x.neg, num := r, den := 1, e10 := a.2.2 } o.d o.fl)
+     else
+      o.d.form = .nan ∧ o.fl = Cond.cDivImpossible ∧ o.err = goError c.traps Cond.cDivImpossible) := by
+  intro a q r o
+  have hb : 0 < a.2.1 := by
+    show 0 < y.coeff * 10 ^ _
+    exact Nat.mul_pos (Nat.pos_of_ne_zero hy0) (Nat.pow_pos (by decide))
+  refine ⟨⟨?_, Nat.mod_lt _ hb⟩, ?_⟩
+  · show a.1 = a.1 / a.2.1 * a.2.1 + a.1 % a.2.1
+    rw [Nat.mul_comm]; exact (Nat.div_add_mod _ _).symm
+  · have ho : o = _ := remOp_eq c x y hx hy hy0 _ _ _ (upscale_eq_aligned x y hgap)
+    by_cases h : ndigits q ≤ c.prec
+    · have h' : ¬ c.prec < ndigits ((aligned x y).1 / (aligned x y).2.1) := by
+        show ¬ c.prec < ndigits q; omega
+      rw [if_neg h'] at ho
+      rw [if_pos h, ho]
+      intro hd
+      exact hRC c hc _ rfl (noSys_of_delivered _ _ hd)
+    · have h' : c.prec < ndigits ((aligned x y).1 / (aligned x y).2.1) := by
+        show c.prec < ndigits q; omega
+      rw [if_pos h'] at ho
+      rw [if_neg h, ho]
+      exact ⟨rfl, rfl, rfl⟩
 
 /-- Rem: `r = x - q*y` exactly (same `q`), sign of `x`, `|r| < |y|`, then rounded to the context;
 DivisionImpossible + NaN exactly when q needs more than Precision digits. -/
@@ -36,16 +98,104 @@ theorem C10_rem (c : Ctx) (hc : c.WF) (x y : Dec) (hx : x.form = .finite) (hy : 
       (Delivered o.err →
         Agrees c { neg := x.neg, num := r, den := 1, e10 := a.2.2 } o.d o.fl)
      else
-      o.d.form = .nan ∧ o.fl = Cond.cDivImpossible ∧ o.err = goError c.traps Cond.cDivImpossible) := by
-  sorry
+      o.d.form = .nan ∧ o.fl = Cond.cDivImpossible ∧ o.err = goError c.traps Cond.cDivImpossible) :=
+  C10_rem_of_roundCore C01_roundCore c hc x y hx hy hy0 hgap
 
-/-- exactness: when the remainder has at most Precision digits (and is in range) it is returned
-exactly and the rounding mode does not matter -/
+/-! ## exactness
+
+The statement originally given for `C10_rem_exact` was
+
+```
 theorem C10_rem_exact (c : Ctx) (hc : c.WF) (x y : Dec) (hx : x.form = .finite) (hy : y.form = .finite)
     (hy0 : y.coeff ≠ 0) (hgap : x.exp - y.exp ≤ 100000 ∧ y.exp - x.exp ≤ 100000)
     (hq : ndigits ((aligned x y).1 / (aligned x y).2.1) ≤ c.prec)
     (hr : ndigits ((aligned x y).1 % (aligned x y).2.1) ≤ c.prec)
+    (hd : Delivered (remOp c x y).err) : (remOp c x y).fl.inexact = false
+```
+
+It is FALSE: its docstring says "(and is in range)" but no range hypothesis is present.  A remainder
+with few digits can still lie below `Etiny` (it is then rounded to the subnormal grid, Inexact) or
+above `Emax` (Overflow + Inexact).  Two counterexamples are checked below by `decide`.
+`C10_rem_exact_iff` characterises exactly when the remainder is returned without Inexact, and
+`C10_rem_exact_partial` is the intended statement with the range hypothesis added. -/
+
+/-- counterexample 1 (remainder below Etiny): `Rem(1E-10, 3)` with prec 5, emin 0, emax 10, no traps
+is delivered with Inexact (result `0E-4`), although `q = 0` and `r = 1` have one digit. -/
+theorem C10_rem_exact_counterexample_sub :
+    let c : Ctx := { prec := 5, emax := 10, emin := 0 }
+    let x : Dec := { coeff := 1, exp := -10 }
+    let y : Dec := { coeff := 3, exp := 0 }
+    c.WF ∧ x.form = .finite ∧ y.form = .finite ∧ y.coeff ≠ 0 ∧
+    (x.exp - y.exp ≤ 100000 ∧ y.exp - x.exp ≤ 100000) ∧
+    ndigits ((aligned x y).1 / (aligned x y).2.1) ≤ c.prec ∧
+    ndigits ((aligned x y).1 % (aligned x y).2.1) ≤ c.prec ∧
+    Delivered (remOp c x y).err ∧ (remOp c x y).fl.inexact = true := by
+  intro c x y
+  exact ⟨by decide, by decide, by decide, by decide, by decide, by decide, by decide,
+    Or.inl (by decide), by decide⟩
+
+/-- counterexample 2 (remainder above Emax): `Rem(1E+50, 3E+50)` with prec 5, emin 0, emax 10, no
+traps is delivered as Infinity with Overflow and Inexact. -/
+theorem C10_rem_exact_counterexample_ovf :
+    let c : Ctx := { prec := 5, emax := 10, emin := 0 }
+    let x : Dec := { coeff := 1, exp := 50 }
+    let y : Dec := { coeff := 3, exp := 50 }
+    c.WF ∧ x.form = .finite ∧ y.form = .finite ∧ y.coeff ≠ 0 ∧
+    (x.exp - y.exp ≤ 100000 ∧ y.exp - x.exp ≤ 100000) ∧
+    ndigits ((aligned x y).1 / (aligned x y).2.1) ≤ c.prec ∧
+    ndigits ((aligned x y).1 % (aligned x y).2.1) ≤ c.prec ∧
+    Delivered (remOp c x y).err ∧ (remOp c x y).fl.inexact = true := by
+  intro c x y
+  exact ⟨by decide, by decide, by decide, by decide, by decide, by decide, by decide,
+    Or.inl (by decide), by decide⟩
+
+/-- exact characterisation: when quotient and remainder have at most Precision digits and the
+outcome is delivered, Inexact is absent iff the remainder `r × 10^s` loses no digit on the
+subnormal grid (`10^(Etiny - s)` divides `r`) and, unless it is zero, its adjusted exponent is
+at most Emax.  The rounding mode does not matter. -/
+theorem C10_rem_exact_iff (c : Ctx) (hc : c.WF) (x y : Dec) (hx : x.form = .finite) (hy : y.form = .finite)
+    (hy0 : y.coeff ≠ 0) (hgap : x.exp - y.exp ≤ 100000 ∧ y.exp - x.exp ≤ 100000)
+    (hq : ndigits ((aligned x y).1 / (aligned x y).2.1) ≤ c.prec)
+    (hr : ndigits ((aligned x y).1 % (aligned x y).2.1) ≤ c.prec)
+    (hd : Delivered (remOp c x y).err) :
+    let a := aligned x y
+    let r := a.1 % a.2.1
+    (remOp c x y).fl.inexact = false ↔
+      (r % 10 ^ (c.emin - (c.prec : Int) + 1 - a.2.2).toNat = 0 ∧
+        (r = 0 ∨ a.2.2 + (ndigits r : Int) - 1 ≤ c.emax)) := by
+  intro a r
+  have ho := remOp_eq c x y hx hy hy0 _ _ _ (upscale_eq_aligned x y hgap)
+  have h' : ¬ c.prec < ndigits ((aligned x y).1 / (aligned x y).2.1) := by omega
+  rw [if_neg h'] at ho
+  rw [ho] at hd ⊢
+  exact ctxRound_inexact c hc _ rfl hr (noSys_of_delivered _ _ hd)
+
+/-- exactness: when the remainder has at most Precision digits and is in range (it is zero, or its
+exponent is at least Etiny and its adjusted exponent at most Emax) it is returned exactly and the
+rounding mode does not matter -/
+theorem C10_rem_exact_partial (c : Ctx) (hc : c.WF) (x y : Dec) (hx : x.form = .finite) (hy : y.form = .finite)
+    (hy0 : y.coeff ≠ 0) (hgap : x.exp - y.exp ≤ 100000 ∧ y.exp - x.exp ≤ 100000)
+    (hq : ndigits ((aligned x y).1 / (aligned x y).2.1) ≤ c.prec)
+    (hr : ndigits ((aligned x y).1 % (aligned x y).2.1) ≤ c.prec)
+    (hrange : (aligned x y).1 % (aligned x y).2.1 = 0 ∨
+      (c.emin - (c.prec : Int) + 1 ≤ (aligned x y).2.2 ∧
+       (aligned x y).2.2 + (ndigits ((aligned x y).1 % (aligned x y).2.1) : Int) - 1 ≤ c.emax))
     (hd : Delivered (remOp c x y).err) : (remOp c x y).fl.inexact = false := by
-  sorry
+  refine (C10_rem_exact_iff c hc x y hx hy hy0 hgap hq hr hd).mpr ?_
+  show _ % _ = 0 ∧ (_ = 0 ∨ _ ≤ c.emax)
+  rcases hrange with h0 | ⟨h1, h2⟩
+  · rw [h0]; exact ⟨Nat.zero_mod _, Or.inl rfl⟩
+  · have : (c.emin - (c.prec : Int) + 1 - (aligned x y).2.2).toNat = 0 := by omega
+    rw [this]
+    exact ⟨Nat.mod_one _, Or.inr h2⟩
 
 end Apd.Props
+
+#print axioms Apd.Props.upscale_eq_aligned
+#print axioms Apd.Props.C10_quoInteger
+#print axioms Apd.Props.C10_rem_of_roundCore
+#print axioms Apd.Props.C10_rem
+#print axioms Apd.Props.C10_rem_exact_counterexample_sub
+#print axioms Apd.Props.C10_rem_exact_counterexample_ovf
+#print axioms Apd.Props.C10_rem_exact_iff
+#print axioms Apd.Props.C10_rem_exact_partial
